@@ -39,7 +39,7 @@ RULE = (
     "TCPNetworkClient, UDPNetworkClient (one datagram), ClientRecvIterator, AsyncClientRecvIterator}, max_recv_size 64 and 1/2 (reads that fill the buffer exactly); spurious readable events as "
     "costed deviations (bound 2); schedules with an arrival within 1 ms of a deadline are skipped and counted (ties are "
     "unspecified); blocking SEND paths (send_all, send_all_from_iterable via sendmsg / fallbacks, StreamEndpoint.send_packet): chunk sequences {(5,5),(1,0,0),(2,5)} "
-    "(thorough + (5,5,5),(7,1,2)) with every partial-write / EAGAIN / unblock-delay answer (C04's explicit-state harness), T in {3.0, 0} x retry_interval {1.0, inf}, judged for time only; "
+    "(thorough + (5,5,5),(7,1,2)) with every partial-write / EAGAIN / unblock-delay answer (C04's explicit-state harness), T in {3.0, 0} x retry_interval {1.0, inf}, judged for time only; UDPNetworkClient.send_packet with a socket answering EAGAIN until 0.2..3.0 s / never, T in {0, 0.5, 2.2, None} x retry {inf, 0.3, 0.7}; "
     "distinct_nontrivial = distinct (subject, T, retry, arrival schedule, outcome, number of waits)"
 )
 ASSUMPTIONS = [
@@ -324,13 +324,92 @@ def run_async_iter(cfg: dict) -> dict:
 def jobs(tier: str) -> list[dict]:
     parts = 48 if tier == "quick" else 96
     return ([{"part": p, "parts": parts, "tier": tier} for p in range(parts)] + [{"part": -1, "parts": 1, "tier": tier}] + real_tls_jobs(tier) + _thread_jobs(tier)
-            + [{"part": "send", "path": path, "parts": 1, "tier": tier} for path in SEND_PATHS])
+            + [{"part": "send", "path": path, "parts": 1, "tier": tier} for path in SEND_PATHS] + [{"part": "udp-send", "parts": 1, "tier": tier}])
 
 
 # blocking send_packet / send_all: the budget across partial writes and retry-interval wake-ups (the send loops of C04's harness, judged
 # here for time only: a wait that ends because the socket became writable before the retry interval elapsed must still be deducted)
 SEND_PATHS = ("send_all", "iter_sendmsg", "iter_noiov", "iter_nosendmsg", "endpoint")
 SEND_SIZES = {"quick": [(5, 5), (1, 0, 0), (2, 5)], "thorough": [(5, 5), (1, 0, 0), (2, 5), (5, 5, 5), (7, 1, 2)]}
+
+
+def run_udp_send(cfg: dict) -> dict:
+    """UDPNetworkClient.send_packet(timeout=T) with a socket that answers EAGAIN until `unblock` seconds have passed (None: never)."""
+    world = World(Ctx(), horizon=600)
+    world.install_clock()
+    sock = world.dgram_socket()
+    saved = _base_selector.selectors
+    T, retry, unblock = cfg["T"], cfg["retry"], cfg["unblock"]
+    sock.tx_blocked = True
+
+    def policy(s: Any, data: bytes) -> BaseException | None:
+        return BlockingIOError(11, "would block") if s.tx_blocked else None
+
+    sock.dgram_send_policy = policy
+    if unblock is not None:
+        world.at(world.clock + unblock, lambda: setattr(sock, "tx_blocked", False))
+    try:
+        _base_selector.selectors = _shim_selectors(world)  # type: ignore[assignment]
+        subj = UDPNetworkClient(sock, DatagramProtocol(StringLineSerializer()), retry_interval=math.inf if retry is None else retry)
+        t0 = world.clock
+        try:
+            subj.send_packet("x", timeout=T)
+            ev: tuple = ("ok", round(world.clock - t0, 6))
+        except TimeoutError:
+            ev = ("timeout", round(world.clock - t0, 6))
+        except Deadlock:
+            ev = ("deadlock", round(world.clock - t0, 6))
+        except HorizonHit:
+            ev = ("spin", round(world.clock - t0, 6))
+        except OSError as exc:
+            ev = ("oserror", type(exc).__name__, round(world.clock - t0, 6))
+    finally:
+        _base_selector.selectors = saved  # type: ignore[assignment]
+        sent = len(sock.txd)
+        world.close_all()
+        world.restore_clock()
+    return {"event": ev, "sent": sent}
+
+
+def oracle_udp_send(cfg: dict, obs: dict) -> str | None:
+    T, unblock = cfg["T"], cfg["unblock"]
+    ev = obs["event"]
+    in_time = unblock is not None and (T is None or unblock < T - 1e-9)
+    if ev[0] in ("spin", "oserror"):
+        return "udp-send-" + ev[0]
+    if ev[0] == "deadlock":
+        return None if (T is None and unblock is None) else "udp-send-blocks-forever"
+    if in_time:
+        if ev[0] != "ok":
+            return "udp-send-timeout-although-writable-in-time"
+        if abs(ev[1] - unblock) > 1e-6:
+            return "udp-send-completed-at-the-wrong-time"
+        return None if obs["sent"] == 1 else "udp-send-datagram-count"
+    if T is None:
+        return None
+    if ev[0] != "timeout":
+        return "udp-send-no-timeout"
+    if abs(ev[1] - T) > 1e-6:
+        return "udp-send-budget-exceeded" if ev[1] > T else "udp-send-timeout-too-early"
+    return None if obs["sent"] == 0 else "udp-send-datagram-sent-despite-timeout"
+
+
+def run_udp_send_job(res: JobResult) -> None:
+    for T in (0, 0.5, 2.2, None):
+        for retry in (None, 0.3, 0.7):
+            for unblock in (0.2, 0.45, 0.9, 1.5, 3.0, None):
+                if T is None and unblock is None:
+                    continue
+                cfg = {"T": T, "retry": retry, "unblock": unblock}
+                obs = run_udp_send(cfg)
+                res.evaluations += 1
+                bad = oracle_udp_send(cfg, obs)
+                res.outcome("udp-send-" + obs["event"][0] if bad is None else "VIOLATION:" + bad)
+                res.nontrivial.add(digest(("udp-send", T, retry, unblock, obs["event"])))
+                key = f"udp-send/{bad}"
+                if bad and not any(v.key == key for v in res.violations):
+                    res.violations.append(Violation(key, f"UDPNetworkClient.send_packet {cfg}: {obs}", {"part": "udp-send", "cfg": cfg}))
+    res.samples.append({"part": "udp-send-budget"})
 
 
 def run_send_job(job: dict, res: JobResult) -> None:
@@ -388,6 +467,9 @@ def run_job(job: dict) -> JobResult:
     res = JobResult()
     if job["part"] == "send":
         run_send_job(job, res)
+        return res
+    if job["part"] == "udp-send":
+        run_udp_send_job(res)
         return res
     if job["part"] == -2:
         run_real_tls_job(res)
@@ -454,6 +536,10 @@ def replay(doc: dict) -> tuple[bool, str]:
         from . import c12_threads
 
         return c12_threads.replay(doc)
+    if rp.get("part") == "udp-send":
+        obs = run_udp_send(rp["cfg"])
+        bad = oracle_udp_send(rp["cfg"], obs)
+        return bad is not None, f"cfg={rp['cfg']}\nobserved={obs}\noracle: {bad}"
     if rp.get("part") == "send":
         from ..core import Ctx as _Ctx
         from . import c04
